@@ -29,6 +29,9 @@ type c10Op struct {
 	ErrKind int `json:"error_kind,omitempty"`
 	// MaxRead: encrypt: the source hands out at most this many octets per Read (short reads without error)
 	MaxRead int `json:"max_read,omitempty"`
+	// ChainIV: decrypt-valid: the reference sender takes as IV the last ciphertext block of the previous ciphertext this object
+	// has seen (the classic CBC chaining of older implementations): still a well-formed ciphertext
+	ChainIV bool `json:"iv_is_last_block_of_previous_ciphertext,omitempty"`
 	// Spare: encrypt: the plaintext slice has spare capacity behind it (as a sub-slice of a larger buffer has)
 	Spare bool        `json:"plaintext_has_spare_capacity,omitempty"`
 	IV    model.Bytes `json:"iv,omitempty"`  // decrypt-valid: reference-built ciphertext
@@ -108,6 +111,7 @@ func c10Oracle(in c10In) probe.Outcome {
 	nontrivial := false
 	type held struct{ p, ct, snapshot []byte }
 	var kept []held // ciphertexts returned earlier, still held by the caller
+	var lastBlock []byte
 	for i, op := range in.Ops {
 		fresh, err := c10New(in.Encr, key)
 		if err != nil {
@@ -154,6 +158,7 @@ func c10Oracle(in c10In) probe.Outcome {
 			if !bytes.Equal(back, p) {
 				return probe.Fail("step %d: Decrypt(Encrypt(p)) != p", i)
 			}
+			lastBlock = append([]byte(nil), ctL[len(ctL)-16:]...)
 			// a second encryption with the real random source: IV must be new
 			var ct2 []byte
 			if err := probe.Try(func() error { var x error; ct2, x = long.Encrypt(probe.Exact(p)); return x }); err != nil {
@@ -215,11 +220,17 @@ func c10Oracle(in c10In) probe.Outcome {
 				pt[len(op.Data)+j] = byte(j*7 + 1)
 			}
 			pt = append(pt, byte(op.Pad))
-			ct, err := ref.CBCEncrypt(key, op.IV, pt)
+			iv := op.IV
+			if op.ChainIV && len(lastBlock) == 16 {
+				iv = lastBlock
+				labels = append(labels, "iv-chained-from-previous-ciphertext")
+			}
+			ct, err := ref.CBCEncrypt(key, iv, pt)
 			if err != nil {
 				return probe.Fail("HARNESS: %v", err)
 			}
-			full := append(append([]byte(nil), op.IV...), ct...)
+			full := append(append([]byte(nil), iv...), ct...)
+			lastBlock = append([]byte(nil), full[len(full)-16:]...)
 			var back []byte
 			if err := probe.Try(func() error { var x error; back, x = long.Decrypt(probe.Exact(full)); return x }); err != nil {
 				return probe.Fail("step %d: Decrypt of a reference ciphertext (pad length %d) failed: %v", i, op.Pad, err)
@@ -282,7 +293,7 @@ func c10GenOp(t *rapid.T) c10Op {
 		n := gen.Len(t, "ptlen", 0, 300, 0, 15, 16)
 		base := 15 - n%16
 		pad := base + 16*rapid.IntRange(0, (255-base)/16).Draw(t, "padblocks")
-		return c10Op{Op: "decrypt-valid", Data: gen.Fill(t, "pt", n), IV: gen.Fill(t, "iv", 16), Pad: pad}
+		return c10Op{Op: "decrypt-valid", Data: gen.Fill(t, "pt", n), IV: gen.Fill(t, "iv", 16), Pad: pad, ChainIV: rapid.IntRange(0, 2).Draw(t, "chainiv") == 2}
 	case 2:
 		n := gen.Len(t, "ctlen", 0, 200, 0, 15, 16, 17, 31, 32, 33, 48)
 		return c10Op{Op: "decrypt-garbage", Data: gen.Fill(t, "ct", n)}
@@ -321,6 +332,9 @@ var c10Table = probe.Define("C10", "table", func(t *rapid.T) c10In { panic("enum
 
 func TestC10(t *testing.T) {
 	c := probe.NewCtx(t, "C10")
+	if c.Shard == 1 || !c.Thorough() {
+		endurance(c, "C10", "encrypt", 70000)
+	}
 	if c.Shard == 0 {
 		// wrong-size keys 0..64 for the three variants (exhaustive)
 		for e := 0; e < 3; e++ {
